@@ -84,10 +84,12 @@ func vfH_C16_Reopen() {
 		t.Set(k, v)
 		t2.Set(k, v)
 		m.set(k, v)
-		k2, v2 := vfTreeKV("c")
-		t.Set(k2, v2)
-		t2.Set(k2, v2)
-		m.set(k2, v2)
+		if vfParam("after", 1) > 1 {
+			k2, v2 := vfTreeKV("c")
+			t.Set(k2, v2)
+			t2.Set(k2, v2)
+			m.set(k2, v2)
+		}
 		vfAssert(t2.Get(q) == m.get(q), "C16.reopened-tree-still-correct")
 		vfAssert(t2.nextPage == t.nextPage && t2.freePage == t.freePage, "C16.recycled-pages-reused-identically")
 		s1, s2 = t.Stats(), t2.Stats()
